@@ -38,6 +38,9 @@ def regenerate(res):
         return
     common.write_if_changed(os.path.join(common.COQ, "Gen", "MirrorInitGen.v"), text)
     res.trusted.append("translate/mirrorinit2gallina.py (T15: handler list of DigitalRFMirror.__init__ from Python's ast, fail-closed)")
+    # the mirror's handlers inherit DigitalRFEventHandler.dispatch: T2 (patterns) + T19 (__init__ / dispatch)
+    from props import c15 as _c15
+    _c15.regenerate(res)
 METH = {0: "copy", 1: "move", 2: "link"}
 
 
